@@ -8,7 +8,7 @@
    authenticity action, with or without a timestamp countersignature.
    [store_value ty name] is the trust store value ty ++ ":" ++ name;
    [select policy repo] is the statement GetApplicableTrustPolicy hands out. *)
-From NV Require Import Base C03_Model C03_Proofs.
+From NV Require Import Base C03_Model C03_Proofs C03_Audit.
 
 (* authenticity passes ONLY IF some chain certificate is identical to a certificate of
    a store that the applicable statement lists and whose type is the scheme's type *)
@@ -162,6 +162,101 @@ Theorem C03_model_meets_oracle : forall i, wf i = true -> spec_ok i (model i) = 
 Proof. exact model_spec_ok. Qed.
 Print Assumptions C03_model_meets_oracle.
 
+(* ================= added by the theorem audit (docs/audit/C03.md) ================= *)
+
+(* the first sentence of the property as an equivalence, with no side condition on the
+   list: authenticity passes EXACTLY when a statement applies whose level is not skip, the
+   scheme has a store type, every listed value has the separator, every listed store of
+   that type loads, and one of them holds a certificate of the chain *)
+Theorem C03_pass_iff : forall i, o_auth (model i) = Some APass <->
+  exists st ty,
+    select (i_policy i) (i_repo i) = Some st /\ st_action st <> SkipLevel /\
+    store_type_of (i_scheme i) = Some ty /\
+    (forall s, In s (st_stores st) -> contains_byte colon s = true) /\
+    (forall n, In (store_value ty n) (st_stores st) -> fs_get (i_fs i) ty n <> LoadError) /\
+    exists name l c, In (store_value ty name) (st_stores st) /\ fs_get (i_fs i) ty name = Certs l /\
+                     In c l /\ In c (i_chain i).
+Proof. exact pass_iff. Qed.
+Print Assumptions C03_pass_iff.
+
+(* "(ca for notary.x509, signingAuthority for notary.x509.signingAuthority)": the store of
+   the witness has literally that type, and no other scheme ever passes *)
+Theorem C03_pass_typed : forall i, o_auth (model i) = Some APass ->
+  exists st ty name l c,
+    select (i_policy i) (i_repo i) = Some st /\
+    ((i_scheme i = SX509 /\ ty = "ca") \/ (i_scheme i = SSA /\ ty = "signingAuthority")) /\
+    In (store_value ty name) (st_stores st) /\ fs_get (i_fs i) ty name = Certs l /\
+    In c l /\ In c (i_chain i).
+Proof. exact pass_typed. Qed.
+Print Assumptions C03_pass_typed.
+
+(* conclusions of the form "o_auth <> Some APass" hide nothing: authenticity has a result
+   exactly when a statement applies and its level is not skip; otherwise the model reports
+   no result, no call and no stop *)
+Theorem C03_auth_some_iff : forall i, (exists c, o_auth (model i) = Some c) <->
+  exists st, select (i_policy i) (i_repo i) = Some st /\ st_action st <> SkipLevel.
+Proof. exact auth_some_iff. Qed.
+Print Assumptions C03_auth_some_iff.
+
+Theorem C03_no_result : forall i,
+  (select (i_policy i) (i_repo i) = None \/
+   exists st, select (i_policy i) (i_repo i) = Some st /\ st_action st = SkipLevel) ->
+  model i = mk_obs None [] false.
+Proof. exact no_result. Qed.
+Print Assumptions C03_no_result.
+
+(* "a listed store of the required type that cannot be loaded makes authenticity fail
+   instead of being ignored", for EVERY list (malformed values, duplicates, any position):
+   there is a result, it is not a pass, and it ends the verification iff the action is enforce *)
+Theorem C03_load_error_fails : forall i st ty name,
+  select (i_policy i) (i_repo i) = Some st -> st_action st <> SkipLevel ->
+  store_type_of (i_scheme i) = Some ty ->
+  In (store_value ty name) (st_stores st) -> fs_get (i_fs i) ty name = LoadError ->
+  exists c, o_auth (model i) = Some c /\ c <> APass /\
+            o_stop (model i) = (match st_action st with Enforce => true | _ => false end).
+Proof. exact load_error_fails. Qed.
+Print Assumptions C03_load_error_fails.
+
+(* the WHOLE observation (result, stop, every call) depends on the trust store only through
+   the listed stores of the scheme's type and the listed stores of type tsa: whatever sits
+   in unlisted stores or in listed stores of the third type can be changed at will *)
+Theorem C03_fs_noninterference_full : forall i fs' st ty,
+  select (i_policy i) (i_repo i) = Some st -> store_type_of (i_scheme i) = Some ty ->
+  (forall t name, t = ty \/ t = ty_tsa -> In (store_value t name) (st_stores st) ->
+                  fs_get (i_fs i) t name = fs_get fs' t name) ->
+  model (with_fs i fs') = model i.
+Proof. exact fs_noninterference_full. Qed.
+Print Assumptions C03_fs_noninterference_full.
+
+(* "listed only by other statements": every statement other than the selected one may be
+   rewritten at will (trust-store list, level, name, verifyTimestamp) as long as the scopes
+   stay what they are - nothing observable changes *)
+Theorem C03_other_statements_rewrite : forall i f st,
+  (forall s, st_scopes (f s) = st_scopes s) ->
+  select (i_policy i) (i_repo i) = Some st -> f st = st ->
+  model (with_policy i (map f (i_policy i))) = model i.
+Proof. exact other_statements_rewrite. Qed.
+Print Assumptions C03_other_statements_rewrite.
+
+(* "the applicable policy statement", declaratively and completely: in a document whose
+   scope values are pairwise distinct (validateRegistryScopes), the selected statement is
+   THE statement scoped to the repository, else THE wildcard statement when no statement
+   is scoped to the repository; none is selected iff no statement has either scope *)
+Theorem C03_select_iff : forall policy repo st, nodup_str (flat_map st_scopes policy) = true ->
+  (select policy repo = Some st <->
+   In st policy /\
+   ((has_scope wildcard st = false /\ has_scope repo st = true) \/
+    (has_scope wildcard st = true /\
+     forall s, In s policy -> has_scope wildcard s = false -> has_scope repo s = false))).
+Proof. exact select_iff. Qed.
+Print Assumptions C03_select_iff.
+
+Theorem C03_select_none_iff : forall policy repo,
+  select policy repo = None <->
+  forall s, In s policy -> has_scope repo s = false /\ has_scope wildcard s = false.
+Proof. exact select_none_iff. Qed.
+Print Assumptions C03_select_none_iff.
+
 (* ---------- non-vacuity ---------- *)
 Definition ex_fs : fsys :=
   [(("ca", "good"), Certs [7; 3]%N); (("signingAuthority", "good"), Certs [3]%N);
@@ -195,4 +290,101 @@ Example C03_example_hyps :
   select (ex_policy ["ca:good"]) "reg.example/repo" = Some (mk_stmt "sel" ["reg.example/repo"] ["ca:good"] Enforce true)
   /\ store_value "ca" "good" = "ca:good"
   /\ fs_get ex_fs "ca" "good" = Certs [7; 3]%N /\ fs_get ex_fs "ca" "missing" = LoadError.
+Proof. repeat split; reflexivity. Qed.
+
+(* ---------- non-vacuity of the theorems added by the audit ---------- *)
+
+(* the three "elsewhere" placements at once: the root (3) sits in a tsa store that IS listed,
+   in a signingAuthority store that IS listed, in ca:good which is NOT listed, and the leaf (1)
+   in ca:other which only the other statement lists; the listed ca store holds a stranger.
+   The hypothesis of C03_never_from_elsewhere holds and the result is a failure *)
+Definition ex_fs2 : fsys :=
+  [(("ca", "mine"), Certs [8]%N); (("tsa", "t"), Certs [3]%N); (("signingAuthority", "good"), Certs [3]%N);
+   (("ca", "good"), Certs [3]%N); (("ca", "other"), Certs [1]%N)].
+Definition ex_input2 : input :=
+  mk_input SX509 (ex_policy ["tsa:t"; "signingAuthority:good"; "ca:mine"]) "reg.example/repo" ex_fs2 [1; 2; 3]%N true.
+Example C03_example_elsewhere :
+  wf ex_input2 = true /\
+  (forall name l c, In (store_value "ca" name) ["tsa:t"; "signingAuthority:good"; "ca:mine"] ->
+     fs_get ex_fs2 "ca" name = Certs l -> In c l -> ~ In c [1; 2; 3]%N) /\
+  model ex_input2 = mk_obs (Some ANoMatch) [("ca", "mine")] true.
+Proof.
+  split; [reflexivity|]. split; [|reflexivity].
+  intros name l c [H|[H|[H|[]]]]; inversion H; subst. cbn. intros E. inversion E; subst.
+  intros [<-|[]] [H1|[H1|[H1|[]]]]; discriminate.
+Qed.
+
+(* C03_fs_noninterference(_full): a store content that differs outside the listed ca / tsa
+   stores (root moved into every unlisted and wrongly typed store) satisfies the hypothesis
+   and is a different trust store *)
+Definition ex_fs3 : fsys :=
+  [(("ca", "mine"), Certs [8]%N); (("tsa", "t"), Certs [3]%N); (("signingAuthority", "good"), Certs [1; 2; 3]%N);
+   (("ca", "good"), Certs [1; 2; 3]%N); (("ca", "other"), Certs [1; 2; 3]%N); (("signingAuthority", "mine"), Certs [3]%N)].
+Example C03_example_noninterference :
+  (forall t name, t = "ca" \/ t = ty_tsa -> In (store_value t name) ["tsa:t"; "signingAuthority:good"; "ca:mine"] ->
+     fs_get (i_fs ex_input2) t name = fs_get ex_fs3 t name) /\
+  ex_fs3 <> ex_fs2 /\ model (with_fs ex_input2 ex_fs3) = model ex_input2.
+Proof.
+  split; [|split; [discriminate | reflexivity]].
+  intros t name [->| ->] [H|[H|[H|[]]]]; inversion H; subst; reflexivity.
+Qed.
+
+(* C03_other_statements_rewrite: the wildcard statement gets the good store and the level
+   audit; the statement scoped to the repository is left alone *)
+Definition ex_rewrite (s : stmt) : stmt :=
+  if String.eqb (st_name s) "wild" then mk_stmt "renamed" (st_scopes s) ["ca:good"; "tsa:t"] Log false else s.
+Example C03_example_rewrite :
+  (forall s, st_scopes (ex_rewrite s) = st_scopes s) /\
+  select (i_policy ex_input2) (i_repo ex_input2) = Some (mk_stmt "sel" ["reg.example/repo"] ["tsa:t"; "signingAuthority:good"; "ca:mine"] Enforce true) /\
+  map ex_rewrite (i_policy ex_input2) <> i_policy ex_input2 /\
+  model (with_policy ex_input2 (map ex_rewrite (i_policy ex_input2))) = model ex_input2.
+Proof.
+  split; [|split; [reflexivity | split; [discriminate | reflexivity]]].
+  intros s. unfold ex_rewrite. now destruct (String.eqb (st_name s) "wild").
+Qed.
+
+(* C03_load_error / C03_load_error_fails / C03_load_error_never_passes: the failing store
+   listed AFTER a store that holds the root, next to a value without separator (no validated
+   statement carries one): still a failure, in both orders *)
+Example C03_example_load_error :
+  fs_get ex_fs "ca" "missing" = LoadError /\
+  model (ex_input SX509 ["ca:good"; "ca:missing"]) = mk_obs (Some (ALoad "ca" "missing")) [("ca", "good"); ("ca", "missing")] true /\
+  model (ex_input SX509 ["ca:good"; "nosep"; "ca:missing"]) = mk_obs (Some (AFormat "nosep")) [("ca", "good")] true /\
+  model (ex_input SX509 ["ca:good"; "ca:missing"; "nosep"]) = mk_obs (Some (ALoad "ca" "missing")) [("ca", "good"); ("ca", "missing")] true.
+Proof. repeat split; reflexivity. Qed.
+
+(* C03_empty_fails, C03_calls_exact, C03_calls_nodup: hypotheses met by a list without a ca
+   entry; under audit (Log) the verification goes on and the tsa store is asked *)
+Example C03_example_empty :
+  (forall name, ~ In (store_value "ca" name) ["signingAuthority:good"; "tsa:t"; "tsa:t"]) /\
+  model (mk_input SX509 [mk_stmt "a" ["reg.example/repo"] ["signingAuthority:good"; "tsa:t"; "tsa:t"] Log true]
+                  "reg.example/repo" ex_fs [1; 2; 3]%N true)
+  = mk_obs (Some AEmpty) [("tsa", "t")] false.
+Proof.
+  split; [|reflexivity]. intros name [H|[H|[H|[]]]]; discriminate.
+Qed.
+
+(* C03_scheme (third part), C03_auth_some_iff, C03_no_result, C03_select_none_iff *)
+Example C03_example_no_result :
+  model (ex_input SOther ["ca:good"]) = mk_obs (Some AScheme) [] true /\
+  select (ex_policy ["ca:good"]) "reg.example/repo" <> None /\
+  select [mk_stmt "sel" ["reg.example/repo"] ["ca:good"] Enforce true] "reg.example/REPO" = None /\
+  model (mk_input SX509 [mk_stmt "sel" ["reg.example/repo"] ["ca:good"] Enforce true] "reg.example/repo/sub" ex_fs [3]%N false)
+  = mk_obs None [] false /\
+  model (mk_input SX509 [mk_stmt "sel" ["reg.example/repo"] ["ca:good"] SkipLevel true] "reg.example/repo" ex_fs [3]%N false)
+  = mk_obs None [] false.
+Proof. repeat split; try reflexivity. discriminate. Qed.
+
+(* C03_select_iff: the contract holds of the example document; the wildcard statement is the
+   selected one for a repository nobody names, although it comes first *)
+Example C03_example_select :
+  nodup_str (flat_map st_scopes (ex_policy ["ca:good"])) = true /\
+  select (ex_policy ["ca:good"]) "reg.example/else" = Some (mk_stmt "wild" ["*"] ["ca:other"] Enforce true).
+Proof. split; reflexivity. Qed.
+
+(* C03_stop_iff: both directions inhabited (enforce + failure above; log + failure here) *)
+Example C03_example_stop :
+  o_stop (model ex_input2) = true /\
+  o_stop (model (mk_input SX509 [mk_stmt "a" ["*"] ["ca:mine"] Log true] "r/x" ex_fs2 [1; 2; 3]%N false)) = false /\
+  o_auth (model (mk_input SX509 [mk_stmt "a" ["*"] ["ca:mine"] Log true] "r/x" ex_fs2 [1; 2; 3]%N false)) = Some ANoMatch.
 Proof. repeat split; reflexivity. Qed.
